@@ -100,6 +100,7 @@ func propC12(w *World, r *Report) {
 		}
 	}
 	checkWrappedSinkProtocol(w, r, "Y1", "Y3")
+	checkStopToleratesClosed(w, r, "Y1") // discharges the assumption "StopRecording on a closed sink is tolerated" for the file recorder
 	// back to a normal state after a failure: a recording whose counter a failed start left above its target is still
 	// ended by the next stop test (the comparison is non-strict)
 	checkStopTaken(w, r, runs, resolveMotionRoles(runs.fault), "Y3")
